@@ -41,13 +41,54 @@ func baseFields(extra ...gq.FieldDesc) []gq.FieldDesc {
 	return append(fs, extra...)
 }
 
+// every wrapper variation of one named type
+func variations(t string) []string {
+	return []string{t, t + "!", "[" + t + "]", "[" + t + "]!", "[" + t + "!]", "[" + t + "!]!"}
+}
+
+// fields wL0..wL5 (leaf Int) and wC0..wC5 (composite I): on A the k-th variation, on B the (k+shift)-th, so that
+// same-named fields of the two implementers differ only in wrappers, and (through an alias) every ordered pair of
+// variations can meet under one response key below mutually exclusive parents
+func wrapperFields(shift int) []gq.FieldDesc {
+	var fs []gq.FieldDesc
+	for _, p := range []struct{ tag, t string }{{"L", "Int"}, {"C", "I"}} {
+		vs := variations(p.t)
+		for k := range vs {
+			fs = append(fs, gq.FieldDesc{Name: fmt.Sprintf("w%s%d", p.tag, k), Type: vs[(k+shift)%len(vs)], Args: []gq.ArgDesc{}})
+		}
+	}
+	return fs
+}
+
+// selections of the wrapper fields under the response key `x`, below A resp. B
+func wrapperPool() []string {
+	var out []string
+	for _, side := range []string{"A", "B"} {
+		for k := 0; k < 6; k++ {
+			out = append(out, fmt.Sprintf("... on %s { x: wL%d }", side, k))
+			out = append(out, fmt.Sprintf("... on %s { x: wC%d { n } }", side, k))
+		}
+	}
+	return out
+}
+
+var wpool = wrapperPool()
+
+// one pool selection; a third of the picks are wrapper-variation selections
+func pick(r *hx.Rng) string {
+	if r.Chance(1, 3) {
+		return r.Pick(wpool)
+	}
+	return r.Pick(pool)
+}
+
 func schemaDesc() *gq.SchemaDesc {
 	return &gq.SchemaDesc{Query: "Q", Directives: []gq.DirectiveDesc{}, Types: []gq.TypeDesc{
 		{Kind: "SCALAR", Name: "Int", Builtin: "Int"},
 		{Kind: "SCALAR", Name: "String", Builtin: "String"},
 		{Kind: "INTERFACE", Name: "I", Fields: baseFields(), ResolveType: true},
-		{Kind: "OBJECT", Name: "A", Interfaces: []string{"I"}, Fields: baseFields(gq.FieldDesc{Name: "a", Type: "Int", Args: []gq.ArgDesc{}}), IsTypeOf: true},
-		{Kind: "OBJECT", Name: "B", Interfaces: []string{"I"}, Fields: baseFields(gq.FieldDesc{Name: "b", Type: "String", Args: []gq.ArgDesc{}}), IsTypeOf: true},
+		{Kind: "OBJECT", Name: "A", Interfaces: []string{"I"}, Fields: append(baseFields(gq.FieldDesc{Name: "a", Type: "Int", Args: []gq.ArgDesc{}}), wrapperFields(0)...), IsTypeOf: true},
+		{Kind: "OBJECT", Name: "B", Interfaces: []string{"I"}, Fields: append(baseFields(gq.FieldDesc{Name: "b", Type: "String", Args: []gq.ArgDesc{}}), wrapperFields(1)...), IsTypeOf: true},
 		{Kind: "OBJECT", Name: "Q", Fields: []gq.FieldDesc{{Name: "i", Type: "I", Args: []gq.ArgDesc{}}, {Name: "n", Type: "Int", Args: []gq.ArgDesc{}}}},
 	}}
 }
@@ -158,7 +199,7 @@ func genDoc(r *hx.Rng, t topo) string {
 	for o := 0; o < nOps; o++ {
 		var sel []string
 		if r.Chance(1, 3) {
-			sel = append(sel, r.Pick(pool))
+			sel = append(sel, pick(r))
 		}
 		for j := 0; j < t.N; j++ {
 			use := j == 0
@@ -185,7 +226,7 @@ func genDoc(r *hx.Rng, t topo) string {
 		var sel []string
 		nItems := r.Range(0, 2)
 		for k := 0; k < nItems; k++ {
-			sel = append(sel, r.Pick(pool))
+			sel = append(sel, pick(r))
 		}
 		for j := 0; j < t.N; j++ {
 			if t.Adj[i][j] {
@@ -198,7 +239,7 @@ func genDoc(r *hx.Rng, t topo) string {
 			}
 		}
 		if len(sel) == 0 {
-			sel = append(sel, r.Pick(pool))
+			sel = append(sel, pick(r))
 		}
 		parts = append(parts, fmt.Sprintf("fragment F%d on %s { %s }", i, conds[r.Intn(3)], strings.Join(sel, " ")))
 	}
